@@ -24,7 +24,7 @@ Trace == ndJsonDeserialize("ech_trace.ndjson")
 VARIABLES l, aux, rej
 vars == <<scn, cli, srv, obs, l, aux, rej>>
 
-NoScn == [sc |-> -1, id |-> "", sname |-> <<>>, pubname |-> <<>>, server |-> "noech", hrr_group |-> 0, cookie |-> 0, cert |-> "neither",
+NoScn == [sc |-> -1, id |-> "", sname |-> <<>>, pubname |-> <<>>, server |-> "noech", hrr_group |-> 0, cookie |-> 0, suite |-> 0, cert |-> "neither",
           cfg_list |-> <<>>, retry_list |-> <<>>]
 \* aux: pend = encoded inner waiting for its reconstruction; done = Result seen; srvname = last name the server acted on;
 \*      nsh = ServerHellos seen
@@ -41,7 +41,7 @@ RetryListOf(keys) == IF \E i \in DOMAIN keys : keys[i].retry THEN Vec16(FlaggedC
 
 \* ---- Scn: BuildOuter
 ScnOf(ev) == [sc |-> ev.sc, id |-> ev.id, sname |-> ev.sname, pubname |-> ev.pubname, server |-> ev.server, hrr_group |-> ev.hrr_group,
-              cookie |-> ev.cookie, cert |-> ev.cert, cfg_list |-> ev.cfg_list, retry_list |-> RetryListOf(ev.srv_keys)]
+              cookie |-> ev.cookie, suite |-> ev.suite, cert |-> ev.cert, cfg_list |-> ev.cfg_list, retry_list |-> RetryListOf(ev.srv_keys)]
 \* the harness built the configuration the scenario asks for (else the machinery is broken, not the library)
 ScnSane(ev, c) == /\ ev.server \in ServerModes /\ ev.usage \in Range(Usages) /\ ev.cert \in CertKinds /\ ev.sname # ev.pubname
                   /\ ShapeSane(ev.shape, ParseCfgList(ev.cfg_list))
@@ -82,12 +82,14 @@ OnSMsg(ev) ==
         /\ rej' = rej \cup (IF srv.pc # "wait_ch" THEN Fail("order", "second-hello-retry-request") ELSE {})
                       \cup (IF ~SrvSendsHRR(scn) THEN Fail("calibration", "unexpected-hello-retry-request") ELSE {})
                       \cup (IF SrvSendsHRR(scn) /\ HRRGroupOf(ev.raw) # scn.hrr_group THEN Fail("calibration", "hello-retry-request-names-another-group") ELSE {})
+                      \cup (IF SHSuiteOf(ev.raw) # scn.suite THEN Fail("calibration", "hello-retry-request-selects-another-suite") ELSE {})
                       \cup (IF Len(HRRCookieOf(ev.raw)) # (IF scn.cookie = 0 THEN 0 ELSE scn.cookie + 2)
                             THEN Fail("calibration", "hello-retry-request-cookie-not-as-asked") ELSE {})
      ELSE IF ev.t = 2 THEN
         /\ srv' = (IF srv.pc = "wait_ch" THEN S_OnCH1(srv, scn) ELSE IF srv.pc = "wait_ch2" THEN S_OnCH2(srv) ELSE srv)
         /\ obs' = obs /\ aux' = [aux EXCEPT !.nsh = aux.nsh + 1]
         /\ rej' = rej \cup (IF srv.pc = "wait_ch" /\ SrvSendsHRR(scn) THEN Fail("calibration", "no-hello-retry-request") ELSE {})
+                      \cup (IF SHSuiteOf(ev.raw) # scn.suite THEN Fail("calibration", "server-hello-selects-another-suite") ELSE {})
                       \cup (IF srv.pc = "wait_ch2" /\ cli.nch < 2 THEN Fail("order", "server-hello-before-second-client-hello") ELSE {})
                       \cup (IF srv.pc \notin {"wait_ch", "wait_ch2"} THEN Fail("order", "second-server-hello") ELSE {})
      ELSE IF ev.t = 8 THEN
@@ -125,6 +127,7 @@ ResultProblems(ev) ==
        \cup Fails("report", P_Rejection(ObsClient(ev), ObsServer(ev), scn))
        \* a completed client has a completed, working connection
        \cup (IF ev.cok /\ (~ev.sok \/ ~ev.echo) THEN Fail("outcome", "client-done-but-no-working-connection") ELSE {})
+       \cup (IF ev.cok /\ (ev.cs.suite # scn.suite \/ (ev.sok /\ ev.ss.suite # scn.suite)) THEN Fail("report", "negotiated-suite-is-not-the-selected-one") ELSE {})
        \cup (IF ev.cok /\ ~ev.cs.complete THEN Fail("report", "client-done-but-handshake-not-complete") ELSE {})
        \* acceptance is never reported by a client whose offer the server could not open
        \cup (IF ev.cs.ech /\ ~SrvDecrypts(scn) THEN Fail("report", "client-reports-ECHAccepted-although-server-cannot-decrypt") ELSE {})
